@@ -2,7 +2,7 @@
 //! backends under a watchdog and record the result; TLC (mc/Trace_Simp) decides
 //! Den(post) = Den(pre) under every assignment of the boolean variables.
 
-use crate::absg::{abs, build, canon};
+use crate::absg::{abs, abs_snapshot, build, canon};
 use crate::util::{guarded, Tr};
 use quizx::graph::*;
 use quizx::simplify::*;
@@ -86,6 +86,51 @@ fn run_one<G: GraphLike>(a: &Value, name: &'static str, be: &str) -> Value {
     match guarded(|| run_simp(name, &mut g)) {
         Err(msg) => json!({"k": "simp", "fn": name, "be": be, "res": "panic", "msg": msg}),
         Ok(ret) => json!({"k": "simp", "fn": name, "be": be, "res": "ok", "ret": ret, "post": abs(&g)}),
+    }
+}
+
+/// the simplifiers whose every application is reported by hook H3
+pub const STEP_FNS: &[&str] = &["id_simp", "local_comp_simp", "spider_simp", "pivot_simp", "gen_pivot_simp", "scalar_simp", "flow_simp",
+                                "interior_clifford_simp", "clifford_simp", "fuse_gadgets", "full_simp"];
+
+/// one simplifier with hook H3 installed: rbegin, one rstep per rule application / pack / batch step (with the diagram
+/// after it), rend with the final diagram (mc/Trace_Simp.tla checks each step is a step of spec/Simp.tla)
+pub fn run_steps<G: GraphLike>(a: &Value, name: &'static str, be: &str) -> Vec<Value> {
+    use std::sync::{Arc, Mutex};
+    let steps: Arc<Mutex<Vec<Value>>> = Arc::new(Mutex::new(vec![]));
+    let (a1, be1, st) = (a.clone(), be.to_string(), steps.clone());
+    let r = with_watchdog(25, move || {
+        let mut g: G = build(&a1);
+        let st2 = st.clone();
+        let be2 = be1.clone();
+        quizx::simplify::verif::set_sink(Some(Box::new(move |e: quizx::simplify::verif::RuleEvent| {
+            let mut v = st2.lock().unwrap();
+            if v.len() < 400 {
+                v.push(json!({"k": "rstep", "fn": name, "be": be2, "rule": e.rule, "args": e.args,
+                              "post": abs_snapshot(&e.verts, &e.edges, &e.inputs, &e.outputs, &e.scalar, &e.scalar_factors)}));
+            }
+        })));
+        let r = guarded(|| run_simp(name, &mut g));
+        quizx::simplify::verif::set_sink(None);
+        match r {
+            Err(msg) => json!({"k": "rend", "fn": name, "be": be1, "res": "panic", "msg": msg}),
+            Ok(ret) => json!({"k": "rend", "fn": name, "be": be1, "res": "ok", "ret": ret, "post": abs(&g)}),
+        }
+    });
+    let mut out = vec![json!({"k": "rbegin", "fn": name, "be": be})];
+    out.extend(steps.lock().unwrap().iter().cloned());
+    out.push(r.unwrap_or_else(|| json!({"k": "rend", "fn": name, "be": be, "res": "timeout"})));
+    out
+}
+
+pub fn record_steps(a: &Value, tr: &mut Tr, fns: &[&'static str], idx: usize) {
+    tr.group();
+    tr.emit(json!({"k": "reset", "pre": a}));
+    for (i, &name) in fns.iter().filter(|n| STEP_FNS.contains(n)).enumerate() {
+        let evs = if (idx + i) % 2 == 0 { run_steps::<quizx::vec_graph::Graph>(a, name, "vec") } else { run_steps::<quizx::hash_graph::Graph>(a, name, "hash") };
+        for e in evs {
+            tr.emit(e);
+        }
     }
 }
 
